@@ -1188,13 +1188,15 @@ def oracle(ctx):
     fails += system_witness(ctx)
     from .c03_e3 import run_e3
     fails += run_e3(ctx)
-    from .c03_repl import replace_system
+    from .c03_repl import replace_system, unreadable_input_system
     fails += replace_system(ctx)
+    fails += unreadable_input_system(ctx)
     ctx.count("oracle_failures", len(fails))
     report(ctx, fails)
 
 
 def search(ctx):
+    _guarded(ctx, "refreshed", refreshed_correspondence)      # fresh draws of the file-system histories
     checks, descr, fails = run_consumer_cases(ctx, 1500, big=True)
     report(ctx, fails)
     bad = common.run_cases(ctx, "search", HEADER, checks, chunk=40)
